@@ -173,6 +173,7 @@ RBUS = ("obj", lambda m: m.RecursiveRequestBus, {"_router": "sym", "_error_repre
 RB_METHODS = {"route_handler": "ROUTE", "get_provider_not_found_description": "VAL",
               "track_request": "VAL", "track_response": "VAL"}
 contract(F, "BasicRequestBus.send_chaining", name=f"{F}:RecursiveRequestBus.send_chaining", props=["C09"], frame=False,
+         resolve_method=(lambda m: m.RecursiveRequestBus, "send_chaining"),
          params={"self": RBUS, "request": "sym", "search_offset": "int"},
          requires=["search_offset >= 0", f"search_offset <= route_max({R})"],
          methods=RB_METHODS, decl_disciplines={"route_h": "ANY"}, opaque=OPAQUE,
